@@ -22,11 +22,11 @@ var Carriers = []string{"command", "originatingCommand", "cmd"}
 var Comps = []string{"COMMAND", "QUERY", "WRITE", "OTHER"}
 
 type CaseOpts struct {
-	Verb    string // "" random
-	Carrier string
-	Comp    string
-	DB      string
-	Coll    string
+	Verb       string // "" random
+	Carrier    string
+	Comp       string
+	DB         string
+	Coll       string
 	NoNsStages bool
 }
 
